@@ -1,4 +1,5 @@
 import Bandit.Proofs.Nosec
+import Bandit.Proofs.NosecGrammar
 import Bandit.Gen.Chars
 import Bandit.Gen.Registry
 import Bandit.Gen.Regexes
@@ -292,5 +293,101 @@ theorem regex_sources_known :
     Gen.nosecCommentPattern = "#\\s*nosec:?\\s*(?P<tests>[^#]+)?#?".toList ∧
     Gen.nosecTestsPattern = "(?:(B\\d+|[a-z\\d_]+),?)".toList ∧ Gen.nosecTestsIgnoreCase = true := by
   decide +kernel
+
+/-! ## The comment grammar, for all comment texts
+
+Declarative side: `Bandit/Spec/NosecGrammar.lean` (relations between texts, read off the two regex
+sources above); helper lemmas: `Bandit/Proofs/NosecGrammar.lean`.  The only side condition is that `\s`
+does not match the letter `n` (true of the generated classes, `gen_parse_is_grammar`): the model takes all
+the whitespace after `#` and does not give any back. -/
+
+/-- **One token.**  `(B\d+|[a-z\d_]+)` at the head of `s`: the model's `oneRep` returns `(t, rest)` iff
+`s = t ++ rest` and `t` is `B`/`b` followed by all the decimal digits there are, or — when `s` does not start
+with `B<digit>` — all the token characters there are. -/
+theorem one_token_is_grammar (cc : CharClasses) (s t rest : Str) :
+    Nosec.oneRep cc s = some (t, rest) ↔ Spec.FirstTok cc s t rest :=
+  (Nosec.firstTok_iff cc).symm
+
+/-- **Tokenisation.**  For every text `s` and token list `ts`: `captures` (with the fuel `parse` gives it)
+returns `ts` iff the grammar assigns `ts` to `s` — characters at which no token can start separate tokens
+(blank, comma, any punctuation), after a token one comma is swallowed, tokens are longest matches with `B\d+`
+tried first.  In particular every text has exactly one token list. -/
+theorem captures_is_tokenisation (cc : CharClasses) (s : Str) (ts : List Str) :
+    Nosec.captures cc (s.length + 1) s = ts ↔ Spec.Tokens cc s ts :=
+  (Nosec.tokens_iff_captures cc (s.length + 1) s ts (Nat.lt_succ_self _)).symm
+
+/-- more fuel changes nothing -/
+theorem captures_fuel_irrelevant (cc : CharClasses) (s : Str) (fuel : Nat) (h : s.length < fuel) :
+    Nosec.captures cc fuel s = Nosec.captures cc (s.length + 1) s :=
+  (Nosec.tokens_iff_captures cc fuel s _ h).mp
+    ((Nosec.tokens_iff_captures cc (s.length + 1) s _ (Nat.lt_succ_self _)).mpr rfl)
+
+/-- the leftmost `#\s*nosec` -/
+theorem afterMarker_is_first_marker (cc : CharClasses) (hn : cc.isSpace 'n' = false) (s rest : Str) :
+    Nosec.afterMarker cc s = some rest ↔ Spec.FirstMarker cc s rest :=
+  Nosec.afterMarker_iff cc hn s rest
+
+/-- the `tests` group: optional colon, all whitespace, then everything up to the next `#` -/
+theorem testsGroup_is_group (cc : CharClasses) (rest tests : Str) :
+    Nosec.testsGroup cc rest = tests ↔ Spec.TestsOf cc rest tests :=
+  (Nosec.testsGroup_iff cc).symm
+
+/-- **`Nosec.parse` is the grammar**, for every comment text.  The result is `some ids` iff the comment
+reads as: anything, the leftmost `#\s*nosec`, an optional `:`, whitespace, the `tests` text up to the next `#`;
+`tests` tokenises to `toks`; and `ids` are the tokens that are a known test id or the name of a known test
+(replaced by its id), in order — unknown tokens are dropped. -/
+theorem parse_is_grammar (cc : CharClasses) (hn : cc.isSpace 'n' = false) (reg : Registry) (comment : Str)
+    (ids : List Str) :
+    Nosec.parse cc reg comment = some ids ↔ Spec.NosecReads cc reg comment ids :=
+  Nosec.parse_iff_reads cc hn reg comment ids
+
+/-- … and it is `none` (not a nosec comment) iff `#\s*nosec` occurs nowhere -/
+theorem parse_none_iff_no_marker (cc : CharClasses) (hn : cc.isSpace 'n' = false) (reg : Registry) (comment : Str) :
+    Nosec.parse cc reg comment = none ↔ ¬ Spec.HasMarker cc comment :=
+  Nosec.parse_none_iff cc hn reg comment
+
+/-- the generated character classes and registry satisfy the side condition -/
+theorem gen_parse_is_grammar (comment : Str) (ids : List Str) :
+    Nosec.parse Gen.charClasses Gen.registry comment = some ids ↔
+      Spec.NosecReads Gen.charClasses Gen.registry comment ids :=
+  Nosec.parse_iff_reads Gen.charClasses (by decide +kernel) Gen.registry comment ids
+
+/-- **Nothing known named ⇒ blanket.**  A nosec comment suppresses every test (`some []`) exactly when none
+of its tokens is a known id or name — a bare `# nosec`, but also `# nosec because reasons` or a misspelt id. -/
+theorem blanket_iff_nothing_known (cc : CharClasses) (hn : cc.isSpace 'n' = false) (reg : Registry)
+    (comment rest tests : Str) (toks : List Str)
+    (hm : Spec.FirstMarker cc comment rest) (ht : Spec.TestsOf cc rest tests) (hk : Spec.Tokens cc tests toks) :
+    Nosec.parse cc reg comment = some [] ↔ ∀ t ∈ toks, reg.resolve t = none := by
+  have hp : Nosec.parse cc reg comment = some (Spec.LookedUp reg toks) :=
+    (parse_is_grammar cc hn reg comment _).mpr ⟨rest, tests, toks, hm, ht, hk, rfl⟩
+  rw [hp]
+  simp only [Option.some.injEq, Spec.LookedUp, List.filterMap_eq_nil_iff]
+
+/-- every id a comment names comes from one of its tokens: the token itself when it is a known id,
+otherwise the id of the test with that name -/
+theorem named_ids_come_from_tokens (cc : CharClasses) (hn : cc.isSpace 'n' = false) (reg : Registry)
+    (comment : Str) (ids : List Str) (h : Nosec.parse cc reg comment = some ids) :
+    ∃ rest tests toks, Spec.FirstMarker cc comment rest ∧ Spec.TestsOf cc rest tests ∧ Spec.Tokens cc tests toks ∧
+      ∀ i, i ∈ ids ↔ ∃ t ∈ toks, (reg.checkId t = true ∧ i = t) ∨ (reg.checkId t = false ∧ reg.getTestId t = some i) := by
+  obtain ⟨rest, tests, toks, hm, ht, hk, rfl⟩ := (parse_is_grammar cc hn reg comment ids).mp h
+  refine ⟨rest, tests, toks, hm, ht, hk, ?_⟩
+  intro i
+  simp only [Spec.LookedUp, List.mem_filterMap, Registry.resolve]
+  constructor
+  · rintro ⟨t, htm, hr⟩
+    refine ⟨t, htm, ?_⟩
+    by_cases hc : reg.checkId t = true
+    · rw [if_pos hc] at hr; exact Or.inl ⟨hc, (Option.some.inj hr).symm⟩
+    · rw [if_neg hc] at hr; exact Or.inr ⟨by simpa using hc, hr⟩
+  · rintro ⟨t, htm, ⟨hc, rfl⟩ | ⟨hc, hg⟩⟩
+    · exact ⟨i, htm, by rw [if_pos hc]⟩
+    · exact ⟨t, htm, by rw [if_neg (by simp [hc])]; exact hg⟩
+
+/-- the grammar on a text with every kind of separator (non-vacuity; note `B1x` ↦ `B1`, `x` but `xB2` ↦ `xB2`,
+and that `-`, `;` and blanks separate like commas) -/
+theorem tokens_example :
+    Spec.Tokens Gen.charClasses "B101, B602,assert_used;b3-B1x  xB2 ,,".toList
+      ["B101".toList, "B602".toList, "assert_used".toList, "b3".toList, "B1".toList, "x".toList, "xB2".toList] :=
+  (captures_is_tokenisation _ _ _).mp (by decide +kernel)
 
 end Props.C02
